@@ -33,11 +33,35 @@ theorem goodSnap_empty (objSize : Nat → Option Nat) : GoodSnap objSize Tw.Snap
 theorem goodDelta_empty (objSize : Nat → Option Nat) : GoodDelta objSize Tw.Snap.Delta.empty :=
   ⟨by decide, by intro p hp; simp [Tw.Snap.Delta.empty] at hp⟩
 
+/-- the empty delta (`Delta::clear`, what a `SnapEmpty` stands for) is a reference delta from any
+well-formed snapshot to itself -/
+theorem refDelta_empty {a : RawSnap} (ha : a.WF) : RefDelta a a Tw.Snap.Delta.empty := by
+  have hfind : ∀ p, p ∈ a.items → mfind p.1 a.items = some p.2 := fun p hp => mfind_of_mem ha.1 hp
+  refine ⟨?_, sorted_nil, ?_, ?_⟩
+  · symm
+    simp only [Tw.Snap.Delta.empty, List.map_eq_nil_iff, List.filter_eq_nil_iff]
+    intro p hp
+    simp [hfind p hp]
+  · intro p hp; simp [Tw.Snap.Delta.empty] at hp
+  · intro p hp _; exact hfind p hp
+
+theorem sizesAgree_self {a : RawSnap} (ha : a.WF) : SizesAgree a a := by
+  intro p hp
+  rw [mfind_of_mem ha.1 hp]
+  simp [lenAgree]
+
+/-- **`SnapEmpty` means "same as base" in the concrete model**: applying the cleared delta to a
+builder-made snapshot returns that snapshot, without a warning. -/
+theorem readWithDelta_empty {a : Tw.Snap.Snap} (ha : ExtOk a) :
+    a.readWithDelta Tw.Snap.Delta.empty = .ok (a, []) := by
+  unfold Tw.Snap.Snap.readWithDelta
+  rw [applyDelta_of_refDelta ha.raw_wf ha.raw_wf (sizesAgree_self ha.raw_wf) (refDelta_empty ha.raw_wf)]
+  simp only [buildFromRaw_of_extOk ha, List.append_nil]
+
 open Classical in
 /-- The concrete snapshot layer as `Ops` (the 64 KiB capacity of the glue's buffer is not
-represented: `write` succeeds whenever the sizes agree), with the glue of `server/src/main.rs`
-(which never sends `SnapEmpty`). -/
-noncomputable def snapOps (objSize : Nat → Option Nat) :
+represented here: `write` succeeds whenever the sizes agree), with either sender glue. -/
+noncomputable def snapOps (objSize : Nat → Option Nat) (refGlue : Bool := false) :
     Ops { s : Tw.Snap.Snap // GoodSnap objSize s } { d : Tw.Snap.Delta // GoodDelta objSize d } where
   empty := ⟨Tw.Snap.Snap.empty, goodSnap_empty objSize⟩
   create a b :=
@@ -55,8 +79,8 @@ noncomputable def snapOps (objSize : Nat → Option Nat) :
     | .err e => .error e.name
     | .panic p => .error p
   crc s := s.1.crc
-  same _ _ := false
-  emptyWhenSame := false
+  same a b := decide (a.1 = b.1)
+  emptyWhenSame := refGlue
 
 theorem packInts_ne_nil {x : Int} {xs : List Int} : packInts (x :: xs) ≠ [] := by
   rw [packInts_cons]
@@ -67,7 +91,8 @@ theorem packInts_ne_nil {x : Int} {xs : List Int} : packInts (x :: xs) ≠ [] :=
   omega
 
 /-- C09 + C10 + C08 give the laws of the protocol layer for the concrete snapshot model. -/
-theorem snapOps_laws (objSize : Nat → Option Nat) : Laws (snapOps objSize) where
+theorem snapOps_laws (objSize : Nat → Option Nat) (refGlue : Bool := false) :
+    Laws (snapOps objSize refGlue) where
   apply_create := by
     intro a b d h
     simp only [snapOps, Option.pmap_eq_some_iff] at h
@@ -96,7 +121,11 @@ theorem snapOps_laws (objSize : Nat → Option Nat) : Laws (snapOps objSize) whe
     subst hw
     simp only [enc, if_true] at hr
     simp only [snapOps, hr, d.2, dite_true]
-  same_clear := by intro a b h; simp [snapOps] at h
+  same_clear := by
+    intro a b h
+    have hab : a = b := Subtype.ext (by simpa [snapOps] using h)
+    subst hab
+    simp only [snapOps, readWithDelta_empty a.2.1, a.2, dite_true]
   write_nonempty := by
     intro d bs h
     simp only [snapOps, Option.map_eq_some_iff] at h
